@@ -205,3 +205,18 @@ CHECKS["C02"] = {
                     "behind); a transport error is a failed write on the session"],
     "trusted_base": AT_TB,
 }
+
+
+# ---------------------------------------------------------------------------------------------------
+# Per-property fragments: vlib/reg_<ID>.py defines CHECK (a dict like the ones above) and optionally
+# NOT_APPLICABLE_REASON.  They are merged here so that properties can be developed independently.
+import glob as _glob, importlib as _importlib, os as _os
+
+for _f in sorted(_glob.glob(_os.path.join(_os.path.dirname(__file__), "reg_C*.py"))):
+    _name = _os.path.basename(_f)[:-3]
+    _pid = _name[4:]
+    _m = _importlib.import_module("vlib." + _name)
+    if hasattr(_m, "CHECK"):
+        CHECKS[_pid] = _m.CHECK
+    if hasattr(_m, "NOT_APPLICABLE_REASON"):
+        NOT_APPLICABLE[_pid] = _m.NOT_APPLICABLE_REASON
